@@ -104,6 +104,7 @@ func genScript(name string, faultP float64, idx int) *Script {
 	} else {
 		s.GenErr = simrt.Flip("plugin.gen-err", faultP/2)
 	}
+	s.Helper = simrt.Flip("plugin.leaves-helper-behind", 0.05)
 	if simrt.Flip("plugin.exit-status", faultP/4) {
 		// 1..3, or -1: killed by a signal after an otherwise flawless conversation
 		s.ExitStatus = []int{1, 2, 3, -1}[simrt.Choice("plugin.exit-code", 4)]
@@ -398,6 +399,11 @@ func RunOne(cfg simrt.Config, o world.Opts) *world.Result {
 				entry.StartErr = syscall.EAGAIN
 			}
 			entry.Main = func(p *simrt.Process) int {
+				for _, ps2 := range sc.Plugins {
+					if ps2.Name == ps.Name && ps2.Helper {
+						p.Helper = true
+					}
+				}
 				inst := 0
 				for _, a := range p.Args {
 					fmt.Sscanf(a, "--instance=%d", &inst)
